@@ -69,6 +69,13 @@ C01Part(d) ==
        IN \A ty \in {"f64", "f32"} : \A li \in Levs : \A ki \in 1..3 : EmitStyles("arith", ty, ki, li, dd)
   /\ \A s \in DOMAIN Shapes : \A ty \in {"f64", "f32"} : \A li \in Levs : \A ki \in 1..3 :
        EmitStyles("arith", ty, ki, li, Shapes[s])
+  \* magnitudes at which the square of the SUM leaves the float range while every square and the sum of squares
+  \* stay inside (200 values of about 5000 * 2^45 in f32, 5000 * 2^494 in f64), and tiny ones (2^-60 / 2^-500)
+  /\ \A i \in 1..2 : \A ty \in {"f64", "f32"} : \A sg \in {1, -1} : \A li \in {8, 12} : \A ki \in 1..3 :
+       LET big == IF ty = "f32" THEN 45 ELSE 494
+           tiny == IF ty = "f32" THEN -60 ELSE -500
+           data == RandSample(600 + i, 200, 5000, 0) @@ [scale |-> [p |-> IF sg = 1 THEN big ELSE tiny]] IN
+       EmitStyles("arith", ty, ki, li, data)
   /\ \A b \in DOMAIN BigNs : \A ty \in {"f64", "f32"} : \A li \in {2, 7, 8, 12, 19} : \A ki \in 1..3 :
        LET n == BigNs[b]
            data == [rle |-> << <<V(-3, -1), n \div 3>>, <<V(5, 0), n \div 3>>, <<V(64, 0), n - 2 * (n \div 3)>> >>,
@@ -178,6 +185,11 @@ C05Part(d) ==
            data == PosSample(900 + i, n, 0) @@ [scale |-> [p |-> sc * (IF ty = "f64" THEN 70 ELSE 24)]] IN
        \A li \in LevQuick : \A ki \in 1..3 : \A fl \in {"geo", "harm"} :
             Emit(MeanCase(fl, ty, "ci", ki, li, data, TRUE, "base") @@ [aux |-> TRUE])
+  \* strictly positive SUBNORMAL observations (about 2^-1050 in f64, 2^-132 in f32): still strictly positive data
+  \* (geometric only: the reciprocals of subnormal numbers overflow)
+  /\ \A i \in 1..2 : \A ty \in {"f64", "f32"} : \A fl \in {"geo"} : \A li \in {8, 12} : \A ki \in 1..3 :
+       LET data == PosSample(950 + i, 12 + i, 0) @@ [scale |-> [p |-> IF ty = "f64" THEN -1060 ELSE -140]] IN
+       Emit(MeanCase(fl, ty, "ci", ki, li, data, TRUE, "base") @@ [aux |-> TRUE, subnormal |-> TRUE])
   \* near-constant and wide samples
   /\ \A fl \in {"geo", "harm"} : \A ty \in {"f64", "f32"} : \A li \in Levs : \A ki \in 1..3 :
        /\ Emit(MeanCase(fl, ty, "ci", ki, li, [rle |-> << <<V(1000, 0), 9>>, <<V(1001, 0), 8>> >>, order |-> "asc"], TRUE, "base") @@ [aux |-> TRUE])
@@ -191,11 +203,13 @@ FoldData(k, n) ==
                    order |-> "interleave"]                                          \* all negative (~ -0.1, -0.33, -0.375)
       [] k = 2 -> [rle |-> << <<V(13421773, -27), n \div 2>>, <<V(11184811, -22), n \div 4>>, <<V(5, -1), n - (n \div 2) - (n \div 4)>> >>,
                    order |-> "interleave"]                                          \* all positive, mixed magnitudes
+      [] k = 4 -> [rle |-> << <<V(13421773, -27), n \div 2>>, <<V(-13421773, -27), n \div 2>> >>,
+                   order |-> "interleave"]                                          \* +x, -x alternating: partial states whose sum is exactly 0
       [] OTHER -> [rle |-> << <<V(-13421773, -24), n \div 3>>, <<V(11184811, -25), n \div 3>>, <<V(-7, 0), n - 2 * (n \div 3)>> >>,
                    order |-> "interleave"]                                          \* mixed signs, negative total
 FoldNs == IF Thorough THEN <<1000, 20000, 300000, 1000000>> ELSE <<1000, 20000, 300000>>
 C09FoldPart(d) ==
-  \A k \in 1..3 : \A ni \in DOMAIN FoldNs : \A ty \in {"f64", "f32"} : \A li \in {8, 14} : \A ki \in 1..3 :
+  \A k \in 1..4 : \A ni \in DOMAIN FoldNs : \A ty \in {"f64", "f32"} : \A li \in {8, 14} : \A ki \in 1..3 :
      \A si \in DOMAIN FoldStyles :
         Emit(MeanCase("arith", ty, FoldStyles[si], ki, li, FoldData(k, FoldNs[ni]), si = 1, IF si = 1 THEN "base" ELSE "merge"))
 
